@@ -9,23 +9,29 @@ from .common import gstr, glist, gbool, coq_eval, parse_nested, pmap
 KEYS = [
     ("name", "KStr"), ("size", "KNum"), ("ext", "KStr"), ("path", "KStr"), ("dir", "KStr"),
     ("length(name)", "KNum"), ("uid", "KNum"), ("mode", "KStr"), ("is_dir", "KStr"),
-    ("hardlinks", "KNum"), ("inode", "KNum"), ("blocks", "KNum"),
+    ("hardlinks", "KNum"), ("inode", "KNum"),      # not `blocks`: the kernel may allocate a fresh file's blocks between two runs
     # integer-valued expressions over numeric columns, some of them negative for some entries
     ("size + 1", "KNum"), ("size * 2", "KNum"), ("size % 1000", "KNum"), ("hardlinks + size", "KNum"), ("length(name) * 100", "KNum"),
     ("size - 50", "KNum"), ("length(name) - 10", "KNum"),
+    # date columns order chronologically; integer-valued functions of a date column order numerically
+    ("modified", "KDate"), ("day(modified)", "KNum"), ("month(modified)", "KNum"), ("year(modified)", "KNum"),
 ]
 EXPR_KEYS = {"size + 1", "size * 2", "size % 1000", "hardlinks + size", "length(name) * 100", "size - 50", "length(name) - 10"}
 
 COQ_HEADER = """From Coq Require Import List NArith ZArith Bool.
-From FS Require Import lib.Str lib.Dec model.TopN model.Criteria.
+From FS Require Import lib.Str lib.Res lib.Dec model.TopN model.Criteria model.Datetime.
 Import ListNotations. Open Scope N_scope.
+(* parse_datetime(text).unwrap_or(1970-01-01).0 on the printed form of a date column *)
+Definition datekey_text (x : str) : Z := match parse_datetime 0 x with Det (Ok (a, _)) => a | _ => 0%Z end.
 Definition runm (ks : list (kind * bool)) (lim : option nat) (rows : list (list str * N)) : list N :=
-  values (run (crit_le numkey_digits (fun _ => 0%Z) ks) lim rows).
+  values (run (crit_le numkey_digits datekey_text ks) lim rows).
 """
 
 
 def order_tree(rng, big=False):
-    """A tree with many key ties: few distinct sizes, repeated names in different directories."""
+    """A tree with many key ties: few distinct sizes, repeated names in different directories; modification times on days
+    and months of one and two digits, in several years, with ties."""
+    MT = [1609459200 + d * 86400 + h * 3600 for d in (0, 1, 8, 9, 29, 30, 31, 58, 150, 334, 364, 365, 400, 1000) for h in (0, 13)]
     names = ["a", "b", "A", "a.txt", "b.txt", "c.rs", "10", "9", "z z", "é", "x.TXT", "aa", "B.txt", "_", "a.b.c"]
     sizes = [0, 9, 10, 10, 99, 100, 100, 1000, 5]
     nd = rng.randint(1, 4 if not big else 7)
@@ -38,10 +44,10 @@ def order_tree(rng, big=False):
             if rng.random() < 0.15:
                 kids.append({"name": n, "kind": "dir", "kids": [{"name": "in", "kind": "file", "size": rng.choice(sizes)}]})
             else:
-                kids.append({"name": n, "kind": "file", "size": rng.choice(sizes)})
-        nodes.append({"name": dn, "kind": "dir", "kids": kids})
+                kids.append({"name": n, "kind": "file", "size": rng.choice(sizes), "mtime": rng.choice(MT)})
+        nodes.append({"name": dn, "kind": "dir", "kids": kids, "mtime": rng.choice(MT)})
     for n in rng.sample(names, rng.randint(0, 4)):
-        nodes.append({"name": n, "kind": "file", "size": rng.choice(sizes)})
+        nodes.append({"name": n, "kind": "file", "size": rng.choice(sizes), "mtime": rng.choice(MT)})
     # link counts of one, two and more than nine digits' worth: 12 sorts after 2 as a number, before it as text
     nodes.append({"name": "hl12", "kind": "file", "size": 70000, "hardlinks": ["hl12_%d" % i for i in range(rng.choice([9, 11]))]})
     nodes.append({"name": "hl2", "kind": "file", "size": 4097, "hardlinks": ["hl2_1"]})
@@ -79,6 +85,10 @@ def gen_case(rng, idx):
 def py_key(kind, v):
     if kind == "KNum":
         return int(v) if v.lstrip("-").isdigit() else 0
+    if kind == "KDate":
+        import calendar
+        import time
+        return calendar.timegm(time.strptime(v, "%Y-%m-%d %H:%M:%S"))
     return v
 
 
@@ -124,12 +134,25 @@ def run_binary_cases(ctx, ncases, big=False):
     for i in range(ncases):
         c = gen_case(rng, i)
         c["root"] = trees[i % ntrees]
+        # sometimes two or three roots (every root is searched whole: the top N may come from the last one), the later ones
+        # reached through a sub-directory of another tree so that the roots sit at different nesting levels
+        c["more_roots"] = []
+        if rng.random() < 0.3:
+            for _ in range(rng.choice([1, 1, 2])):
+                other = trees[rng.randrange(ntrees)]
+                if other == c["root"] or other in [m[0] for m in c["more_roots"]]:
+                    continue
+                subs = [d for d in sorted(os.listdir(other)) if os.path.isdir(os.path.join(other, d)) and "," not in d and " " not in d]
+                spell = os.path.basename(other) if not subs or rng.random() < 0.5 else os.path.basename(other) + "/" + rng.choice(subs)
+                c["more_roots"].append((other, spell))
         cases.append(c)
 
     def one(c):
         root = os.path.basename(c["root"])
         keycols = ", ".join(k for k, _ in c["keys"])
-        tail = "from %s %s %s" % (root, c["trav"], c["where"])
+        froms = ["%s %s" % (root, c["trav"])] + ["%s %s" % (sp, c["trav"]) for _, sp in c.get("more_roots", [])]
+        tail = "from %s %s" % (", ".join(f.strip() for f in froms), c["where"])
+        c["tail"] = tail
         rows0, r0 = qlib.select(ctx.impl, "path, " + keycols, tail, cwd=ctx.scratch)
         cols1 = ", ".join(c["selected"])
         rows1, r1 = qlib.select(ctx.impl, cols1, tail + " order by " + c["order"], cwd=ctx.scratch)
